@@ -133,7 +133,18 @@ def check_polygon(idx, emb, acc, only=None):
                                     ('translated', lambda: p.translated(3.25 - 1.5j).area(), a),
                                     ('scaled', lambda: p.scaled(2.0, 0.5).area(), a * 1.0),
                                     ('scaled_neg', lambda: p.scaled(-1.5, 2.0).area(), a * -3.0),
-                                    ('scaled_uniform', lambda: p.scaled(3.0).area(), a * 9.0)):
+                                    ('scaled_uniform', lambda: p.scaled(3.0).area(), a * 9.0),
+                                    # the optional arguments by keyword, an origin, and the degenerate factors (determinant 0)
+                                    ('scaled_keywords', lambda: p.scaled(sx=2.0, sy=0.5).area(), a * 1.0),
+                                    ('scaled_sy_keyword_origin', lambda: p.scaled(-1.5, sy=2.0, origin=1.25 - 0.5j).area(), a * -3.0),
+                                    ('scaled_uniform_origin', lambda: p.scaled(3.0, origin=-2 + 7j).area(), a * 9.0),
+                                    ('scaled_sy_equal_sx_origin', lambda: p.scaled(3.0, 3.0, 1 + 1j).area(), a * 9.0),
+                                    ('scaled_sy_zero', lambda: p.scaled(2.0, 0).area(), 0.0),
+                                    ('scaled_sy_zero_float', lambda: p.scaled(2.0, 0.0).area(), 0.0),
+                                    ('scaled_sx_zero', lambda: p.scaled(0, 3.0).area(), 0.0),
+                                    ('rotated_about_origin', lambda: p.rotated(30, origin=0j).area(), a),
+                                    ('rotated_default_origin', lambda: p.rotated(30).area(), a),
+                                    ('rotated_positional_origin', lambda: p.rotated(-75, 3 - 2j).area(), a)):
                 rr = outcome(fn)
                 acc.case(dict(base, q=tname), cls='area_transform/%s' % tname, nontrivial=exact != 0)
                 if rr[0] != 'ok' or not abs(float(rr[1]) - want) <= 1e-10 * scale2 * 9:
@@ -345,6 +356,29 @@ def check_ellipse(rx, ry, rot, sweep, acc):
     r = outcome(lambda: p.area(chord_length=chord))
     if r[0] != 'ok' or not abs(float(r[1]) - want) <= bound:
         acc.violation('area_wrong', {'n': 2, 'shape': 'ellipse'}, case, observed=r, expected=want, detail='bound %g' % bound)
+    # the same ellipse from two arcs constructed with autoscale_radius=False (half ellipses fit their chord exactly;
+    # where rounding makes the strict constructor refuse, the variant is skipped), and similarity transforms of both
+    variants = [('default', p)]
+    st = outcome(lambda: Path(Arc(a, complex(rx, ry), rot, 0, sweep, b, autoscale_radius=False), Arc(b, complex(rx, ry), rot, 0, sweep, a, autoscale_radius=False)))
+    if st[0] == 'ok':
+        variants.append(('strict', st[1]))
+        acc.seen('area/ellipse_of_strict_arcs')
+    for vname, q in variants:
+        for tname, fn, k in (('identity', lambda: q.area(chord_length=chord), 1.0),
+                             ('rotated30', lambda: q.rotated(30).area(chord_length=chord), 1.0),
+                             ('rotated_about_point', lambda: q.rotated(-75, origin=3 - 2j).area(chord_length=chord), 1.0),
+                             ('translated', lambda: q.translated(0.001 + 2j).area(chord_length=chord), 1.0),
+                             ('scaled_small_about_point', lambda: q.scaled(0.1, origin=1 + 1j).area(chord_length=chord * 0.1), 0.01),
+                             ('scaled_2', lambda: q.scaled(2.0).area(chord_length=chord * 2), 4.0),
+                             ('scaled_sy_equal_sx', lambda: q.scaled(2.0, 2.0).area(chord_length=chord * 2), 4.0),
+                             ('reversed', lambda: q.reversed().area(chord_length=chord), -1.0)):
+            if vname == 'default' and tname == 'identity':
+                continue
+            c2 = dict(case, arcs=vname, transform=tname)
+            acc.case(c2, cls='area/ellipse_%s/%s' % (vname, tname))
+            rr = outcome(fn)
+            if rr[0] != 'ok' or not abs(float(rr[1]) - k * want) <= abs(k) * bound * 1.5 + 1e-9:
+                acc.violation('area_transform', {'n': 2, 'shape': 'ellipse', 'arcs': vname, 'transform': tname}, c2, observed=rr, expected=k * want)
 
 
 def check_rounded_rect(r, chord, sweep_dir, acc):
